@@ -171,7 +171,7 @@ def pad_obligations(ctx, u, rule, fnames):
         lists = list(BO._stmt_lists(u.body(fn)))
         for L in lists:
             for i, s in enumerate(L):
-                pk = C.pad_kind(s)
+                pk = C.pad_kind(s, u)
                 if pk is None:
                     continue
                 kind, x, table = pk
